@@ -869,6 +869,12 @@ impl Session {
             buffer.len()
         );
 
+        // One critical section covers "append to the pending buffer" and "flush it together
+        // with this frame": the buffer guard is kept until the bytes are on the transport.
+        // Releasing it earlier lets another task find the buffer empty and reach the
+        // transport first, overtaking the buffered Settings/SYN frames.
+        let mut buf = self.buffer.lock().await;
+
         // Check if buffering
         if self.buffering.load(std::sync::atomic::Ordering::Relaxed) {
             tracing::trace!(
@@ -876,7 +882,6 @@ impl Session {
                 frame_cmd,
                 frame_stream_id
             );
-            let mut buf = self.buffer.lock().await;
             let old_len = buf.len();
             buf.extend_from_slice(&buffer);
             tracing::debug!(
@@ -888,31 +893,28 @@ impl Session {
         }
 
         // Flush buffer if any
-        {
-            let mut buf = self.buffer.lock().await;
-            if !buf.is_empty() {
-                let buffered_len = buf.len();
+        if !buf.is_empty() {
+            let buffered_len = buf.len();
+            tracing::debug!(
+                "[Session] write_frame: Flushing {} buffered bytes along with new frame ({} bytes)",
+                buffered_len,
+                buffer.len()
+            );
+
+            // Log first frame's header for debugging
+            if buffered_len >= 7 {
                 tracing::debug!(
-                    "[Session] write_frame: Flushing {} buffered bytes along with new frame ({} bytes)",
-                    buffered_len,
-                    buffer.len()
+                    "[Session] First buffered frame header: cmd={}, stream_id={:?}, data_len={:?}",
+                    buf[0],
+                    u32::from_be_bytes([buf[1], buf[2], buf[3], buf[4]]),
+                    u16::from_be_bytes([buf[5], buf[6]])
                 );
-
-                // Log first frame's header for debugging
-                if buffered_len >= 7 {
-                    tracing::debug!(
-                        "[Session] First buffered frame header: cmd={}, stream_id={:?}, data_len={:?}",
-                        buf[0],
-                        u32::from_be_bytes([buf[1], buf[2], buf[3], buf[4]]),
-                        u16::from_be_bytes([buf[5], buf[6]])
-                    );
-                }
-
-                let mut combined = BytesMut::from(&buf[..]);
-                combined.extend_from_slice(&buffer);
-                buffer = combined;
-                buf.clear();
             }
+
+            let mut combined = BytesMut::from(&buf[..]);
+            combined.extend_from_slice(&buffer);
+            buffer = combined;
+            buf.clear();
         }
 
         // Log what we're about to send
@@ -927,7 +929,9 @@ impl Session {
         }
 
         // Write with padding if enabled
-        self.write_with_padding(buffer).await
+        let result = self.write_with_padding(buffer).await;
+        drop(buf);
+        result
     }
 
     /// Write buffer to connection with padding applied
